@@ -58,11 +58,17 @@ type CallFields struct {
 	ErrCode     string `json:"errCode"`
 	ErrMessage  bool   `json:"errMessage"`
 	ErrMetadata bool   `json:"errMetadata"`
-	ExitAt      *int   `json:"exitAt"`
-	PipesAt     *int   `json:"pipesAt"`
-	CtxEnd      *int   `json:"ctxEnd"`
-	Cancel      bool   `json:"cancel"`
-	Probes      []int  `json:"probes"`
+	// the padding of stdout / stderr is white space AFTER the complete JSON value (instead of inside a
+	// string); for stdout optionally followed by one last byte that is not JSON; the plugin ignores SIGPIPE
+	StdoutBlank   bool  `json:"stdoutBlank"`
+	StdoutGarbage bool  `json:"stdoutGarbage"`
+	StderrBlank   bool  `json:"stderrBlank"`
+	IgnoresPipe   bool  `json:"ignoresPipe"`
+	ExitAt        *int  `json:"exitAt"`
+	PipesAt       *int  `json:"pipesAt"`
+	CtxEnd        *int  `json:"ctxEnd"`
+	Cancel        bool  `json:"cancel"`
+	Probes        []int `json:"probes"`
 }
 
 // Call is a call inside a schedule of overlapping calls.
@@ -167,8 +173,19 @@ type job struct {
 	out            CallObs
 }
 
-func (j *job) ownStdout() []byte { return []byte(j.outPre + strings.Repeat("a", j.outPad) + j.outSuf) }
-func (j *job) ownStderr() []byte { return []byte(j.errPre + strings.Repeat("a", j.errPad) + j.errSuf) }
+func padChar(blank bool) string {
+	if blank {
+		return " "
+	}
+	return "a"
+}
+
+func (j *job) ownStdout() []byte {
+	return []byte(j.outPre + strings.Repeat(padChar(j.in.StdoutBlank), j.outPad) + j.outSuf)
+}
+func (j *job) ownStderr() []byte {
+	return []byte(j.errPre + strings.Repeat(padChar(j.in.StderrBlank), j.errPad) + j.errSuf)
+}
 
 type gen struct {
 	c     *common.Ctx
@@ -373,9 +390,18 @@ func (g *gen) stderrText(in CallFields) string {
 func secs(ms int) string { return fmt.Sprintf("%d.%03d", ms/1000, ms%1000) }
 
 // emitter of prefix + pad bytes + suffix
-func padded(prefix, suffix string, pad int, redirect string) string {
-	return fmt.Sprintf("printf '%%s' '%s'%s\nhead -c %d /dev/zero | tr '\\000' 'a'%s\nprintf '%%s' '%s'%s\n",
-		prefix, redirect, pad, redirect, suffix, redirect)
+// (the group's own complaints - "write error: Broken pipe" of a process that ignores SIGPIPE - must not end up on
+// the plugin's stderr: for stdout they are discarded; for stderr they go to the same, closed, pipe)
+func padded(prefix, suffix string, pad int, toStderr, blank bool) string {
+	ch, redirect := "a", " 2>/dev/null"
+	if blank {
+		ch = " "
+	}
+	if toStderr {
+		redirect = " >&2"
+	}
+	return fmt.Sprintf("{ printf '%%s' '%s'; head -c %d /dev/zero | tr '\\000' '%s'; printf '%%s' '%s'; }%s\n",
+		prefix, pad, ch, suffix, redirect)
 }
 
 // body concretises one abstract call into the shell commands of its plugin process and a job
@@ -385,19 +411,40 @@ func (g *gen) body(in CallFields) (string, *job) {
 	g.mark = fmt.Sprint(g.n)
 	j := &job{in: in}
 	var sb strings.Builder
+	if in.IgnoresPipe {
+		sb.WriteString("trap '' PIPE\n") // inherited by the children: they see EPIPE instead of dying
+	}
 	// stderr first: a reader that stops (cap) must not keep the script from printing the rest
-	if in.Stderr == "errorObject" && (in.ErrMessage || in.ErrMetadata) && in.StderrSize > 0 {
+	if in.Stderr == "errorObject" && in.StderrBlank {
+		// the complete error object, then white space up to the size
+		small := in
+		small.StderrSize = 0
+		j.errPre = strings.TrimRight(g.stderrText(small), "\n")
+		j.errPad = max(in.StderrSize-len(j.errPre), 0)
+		sb.WriteString(padded(j.errPre, "", j.errPad, true, true))
+	} else if in.Stderr == "errorObject" && (in.ErrMessage || in.ErrMetadata) && in.StderrSize > 0 {
 		j.errPre, j.errSuf = g.errorObject(in)
 		j.errPad = max(in.StderrSize-len(j.errPre)-len(j.errSuf), 0)
-		sb.WriteString(padded(j.errPre, j.errSuf, j.errPad, " >&2"))
+		sb.WriteString(padded(j.errPre, j.errSuf, j.errPad, true, false))
 	} else if t := g.stderrText(in); t != "" {
 		j.errPre = t
 		fmt.Fprintf(&sb, "cat '%s' >&2\n", g.blob(t))
 	}
-	if in.Stdout == "reply" && in.StdoutSize > 0 {
+	if in.Stdout == "reply" && in.StdoutBlank {
+		// the complete reply, then white space up to the size, then (perhaps) one byte that is not JSON
+		small := in
+		small.StdoutSize = 0
+		pre, suf := g.reply(small)
+		j.outPre = pre + suf
+		if in.StdoutGarbage {
+			j.outSuf = "x"
+		}
+		j.outPad = max(in.StdoutSize-len(j.outPre)-len(j.outSuf), 0)
+		sb.WriteString(padded(j.outPre, j.outSuf, j.outPad, false, true))
+	} else if in.Stdout == "reply" && in.StdoutSize > 0 {
 		j.outPre, j.outSuf = g.reply(in)
 		j.outPad = max(in.StdoutSize-len(j.outPre)-len(j.outSuf), 0)
-		sb.WriteString(padded(j.outPre, j.outSuf, j.outPad, ""))
+		sb.WriteString(padded(j.outPre, j.outSuf, j.outPad, false, false))
 	} else if t := g.stdoutText(in); t != "" {
 		j.outPre = t
 		fmt.Fprintf(&sb, "cat '%s'\n", g.blob(t))
@@ -1094,6 +1141,47 @@ func Run(c *common.Ctx) error {
 		big = append(big, g.add(in))
 	}
 
+	// ---- C'': output that exceeds the cap only by white space after a COMPLETE JSON value (then perhaps garbage),
+	// from a plugin that ignores SIGPIPE and so survives the host closing the pipe and exits with its status:
+	// cutting such output off silently at the cap would turn it into an acceptable reply
+	type blankCase struct {
+		cmd               string
+		out, err, exit    int
+		garbage, ignoring bool
+	}
+	blanks := []blankCase{
+		{"describeKey", specCap + 1, 0, 0, true, true},
+		{"getMetadata", 70000000, 0, 0, true, true},
+		{"generateSignature", specCap, 0, 0, false, true}, // exactly the cap, nothing else: a valid reply
+		{"verifySignature", 0, specCap + 1, 0, false, true},
+		{"generateEnvelope", 0, 70000000, 1, false, true},
+	}
+	if c.Thorough() {
+		blanks = nil
+		for i, cmd := range commands {
+			for _, size := range []int{specCap, specCap + 1, 70000000} {
+				for _, garbage := range []bool{false, true} {
+					blanks = append(blanks, blankCase{cmd, size, 0, 0, garbage, true})
+				}
+				blanks = append(blanks, blankCase{cmd, 0, size, 0, false, true}, blankCase{cmd, 0, size, 1 + i%2, false, true})
+			}
+			blanks = append(blanks, blankCase{cmd, specCap + 1, 0, 0, true, false}, blankCase{cmd, specCap + 1, 0, 1, true, true},
+				blankCase{cmd, 0, specCap + 1, 1, false, false}, blankCase{cmd, specCap - 1, 0, 0, i%2 == 0, true},
+				blankCase{cmd, specCap + 1, specCap + 1, 0, true, true})
+		}
+	}
+	for _, b := range blanks {
+		in := newCall(b.cmd)
+		in.StdoutSize, in.StderrSize, in.ExitCode = b.out, b.err, b.exit
+		in.StdoutBlank, in.StdoutGarbage, in.IgnoresPipe = b.out > 0, b.garbage, b.ignoring
+		if b.err > 0 {
+			in.StderrBlank = true
+			stderrVariant{"errorObject", string(proto.ErrorCodeGeneric), true, false}.apply(&in)
+		}
+		big = append(big, g.add(in))
+		c.Count("blank-padded-over-or-at-cap")
+	}
+
 	// ---- C': the size dimension below the cap: replies and structured errors of 64 KiB .. some MiB ----
 	var mid []*job
 	sizes := []int{4096, 65535, 65536, 65537, 100000, 1<<20 - 1, 1<<20 + 1, 4<<20 + 3}
@@ -1127,6 +1215,16 @@ func Run(c *common.Ctx) error {
 		in = newCall(commands[(si+1)%len(commands)])
 		in.ExitCode, in.StderrSize = 1, size
 		stderrVariant{"errorObject", "", true, false}.apply(&in)
+		mid = append(mid, g.add(in))
+		// white space after the complete value (a valid document) - and one more byte that is not
+		for ci, cmd := range commands {
+			in = newCall(cmd)
+			in.StdoutSize, in.StdoutBlank, in.StdoutGarbage, in.IgnoresPipe = size, true, (si+ci)%2 == 0, ci%2 == 0
+			mid = append(mid, g.add(in))
+		}
+		in = newCall(commands[(si+3)%len(commands)])
+		in.ExitCode, in.StderrSize, in.StderrBlank, in.IgnoresPipe = 1, size, true, si%2 == 0
+		stderrVariant{"errorObject", codes[si%len(codes)], true, false}.apply(&in)
 		mid = append(mid, g.add(in))
 		// both streams large: success ignores stderr, failure ignores stdout
 		for _, exit := range []int{0, 1} {
